@@ -772,6 +772,7 @@ def run(chk: Check) -> None:
     n = 260 if not thorough else 3000
     cases = [gen_case(rng, i) for i in range(n)]
     answers = common.run_driver("C13", [driver_line(c) for c in cases])
+    disagreements: list[dict] = []
     tie = {"cases": 0, "good_and_entryOk": 0, "raised": 0, "disagreements": 0, "leaks_in_sandbox": 0,
            "theorem_instances_confirmed": 0}
     for c, ans in zip(cases, answers):
@@ -789,9 +790,7 @@ def run(chk: Check) -> None:
                   nontrivial=c["prog"]["t"] not in ("skip", "raise"))
         if real != model:
             tie["disagreements"] += 1
-            chk.violation({"correspondence": "real apply_patches/apply_monkey_patches and the Lean model disagree "
-                                             "on the final namespace / _PATCH_STATE", "case": c, "real": real,
-                           "model": ans}, no_failing_input=True)
+            disagreements.append({"case": c, "real": real, "model": ans})
         if good and entry_ok:
             tie["good_and_entryOk"] += 1
             if restored:
@@ -806,9 +805,23 @@ def run(chk: Check) -> None:
     chk.add("traces_validated_against_impl", tie["cases"])
     chk.info("disagreements_checked", tie["disagreements"])
 
-    # ---- the property's observable on the real code
-    run_history(chk, rng, thorough)
-    run_entry_loop_defect(chk)
+    # ---- the property's observable on the real code (= the search when the correspondence broke)
+    try:
+        run_history(chk, rng, thorough)
+        run_entry_loop_defect(chk)
+    except Exception as e:
+        if not chk.violations and not disagreements:
+            raise
+        # the process is already polluted by a leak that was reported above
+        chk.log(f"history aborted after reported violations: {type(e).__name__}: {str(e)[:120]}")
+    if disagreements and not chk.violations:
+        chk.violation({"correspondence": "real apply_patches/apply_monkey_patches and the Lean model disagree on "
+                                         "the final namespace / _PATCH_STATE; no leak was observed on the sandbox "
+                                         "(with good keys) or in the real histories",
+                       "n_disagreements": len(disagreements), "cases": disagreements[:5]},
+                      name="correspondence", no_failing_input=True)
+    elif disagreements:
+        chk.log(f"{len(disagreements)} model/real disagreements on the sandbox (concrete failing inputs reported above)")
 
     chk.assumptions += [
         "unwinding steps (setattr of the saved original / delattr) do not raise",
